@@ -579,6 +579,49 @@ func (w *dtWalker) execCall(st *dtState, call *ssa.Call) {
 		args = append([]string{k}, args...)
 	}
 	key := name + "(" + strings.Join(args, ",") + ")"
+	// a local bytes.Buffer (or strings.Builder) used to assemble a byte string: model its content as the append chain
+	// of what was written to it, so that `buf.Write(a); buf.WriteString(b); buf.Bytes()` reads append(a,b)
+	if o := CalleeObj(call); o != nil && o.Pkg() != nil && len(args) > 0 {
+		isBuf := func(v ssa.Value) bool {
+			v = stripConv(v)
+			t := v.Type()
+			if p, ok := t.(*types.Pointer); ok {
+				t = p.Elem()
+			}
+			n, ok := t.(*types.Named)
+			return ok && n.Obj().Pkg() != nil && ((n.Obj().Pkg().Path() == "bytes" && n.Obj().Name() == "Buffer") || (n.Obj().Pkg().Path() == "strings" && n.Obj().Name() == "Builder"))
+		}
+		if isBuf(call.Call.Args[0]) && strings.HasPrefix(args[0], "local:") {
+			ck := "bufcontent:" + args[0]
+			add := func(piece string) {
+				if cur := st.store[ck]; cur == "" {
+					st.store[ck] = piece
+				} else {
+					st.store[ck] = "append(" + cur + "," + piece + ")"
+				}
+			}
+			full := o.Pkg().Path() + "." + o.Name()
+			switch {
+			case (o.Pkg().Path() == "bytes" || o.Pkg().Path() == "strings") && (o.Name() == "Write" || o.Name() == "WriteString" || o.Name() == "WriteByte" || o.Name() == "WriteRune") && len(args) == 2:
+				add(args[1])
+				st.env[call] = key
+				return
+			case full == "fmt.Fprintf" && len(args) >= 2:
+				add("fmt.Sprintf(" + strings.Join(args[1:], ",") + ")")
+				st.env[call] = key
+				return
+			case full == "fmt.Fprint" && len(args) >= 2:
+				add("fmt.Sprint(" + strings.Join(args[1:], ",") + ")")
+				st.env[call] = key
+				return
+			case (o.Pkg().Path() == "bytes" || o.Pkg().Path() == "strings") && (o.Name() == "Bytes" || o.Name() == "String") && len(args) == 1:
+				if cur, ok := st.store[ck]; ok {
+					st.env[call] = cur
+					return
+				}
+			}
+		}
+	}
 	if b, ok := call.Call.Value.(*ssa.Builtin); ok {
 		switch b.Name() {
 		case "len":
